@@ -50,6 +50,7 @@ ToOf(tg) == CASE tg = "named"    -> Nm("alt", "R")
               [] tg = "alias"    -> Nm("alt", "RA")
               [] tg = "samename" -> Nm("same", "R")
               [] tg = "dstpkg"   -> Nm("dst", "D")
+              [] tg = "samepkg"  -> Nm("orig", "R")      \* the replacement lives in the package of the replaced type
 
 \* M1 by position kind.  "$q" is concretised to the replacement package's name (a parameter named like the qualifier).
 M1Params(p, sk) ==
@@ -98,12 +99,15 @@ I1Methods(p, o, sk) ==
       base == M1Params(p, sk)
       ps == CASE o = "parambefore" -> WithExtra(base, Prm(nm("u"), UT), TRUE)
               [] o = "paramafter"  -> WithExtra(base, Prm(nm("u"), UT), FALSE)
-              [] o = "twinparam"   -> WithExtra(base, Prm(nm("z"), TwinOf(sk)), TRUE)
+              [] o \in {"twinparam", "twinmapped"} -> WithExtra(base, Prm(nm("z"), TwinOf(sk)), TRUE)
               [] OTHER             -> base
       m1 == Mth("M1", ps, M1Results(p, sk))
   IN  (IF o = "methodbefore" THEN <<Mth("M0", <<Prm("u", UT)>>, << >>)>> ELSE << >>)
       \o <<m1>>
       \o (IF o = "methodafter" THEN <<Mth("M2", <<Prm("u", UT)>>, <<UT>>)>> ELSE << >>)
+      \* "embedded": I1 embeds an interface declared in the ORIGINAL package whose method mentions the type;
+      \* the method belongs to I1's method set like any other
+      \o (IF o = "embedded" THEN <<Mth("ME", <<Prm("e", SOf(sk))>>, <<SOf(sk)>>)>> ELSE << >>)
       \o <<ZMethod>>
 
 I2Methods(o, sk) ==
@@ -134,6 +138,8 @@ MethodsOfIface(p, o, sk, iname) == IF iname = "I1" THEN I1Methods(p, o, sk) ELSE
 \* interface-level configs of I1 and I2, either order).
 \* To2: the other target -- another type in another package than the first.
 To2Of(tg) == IF tg = "samename" THEN Nm("alt", "R2") ELSE Nm("same", "R2")
+\* "twinmapped": a second source package with the SAME package name has a type of the same name, mapped too (-> alt.R2)
+TwinMaps(o, sk) == IF o = "twinmapped" THEN {<< <<"same", KeyNameOf(sk)>>, Nm("alt", "R2") >>} ELSE {}
 \* the target this mock's own config maps the key to; NoTarget if no level on its chain carries the mapping
 NoTarget == Bas("")
 MockTo(mk, lv, tg) ==
@@ -144,6 +150,9 @@ MockTo(mk, lv, tg) ==
     [] lv = "entry2y"                                  -> IF mk.entry = "e0" THEN To2Of(tg) ELSE IF mk.entry = "e1" THEN ToOf(tg) ELSE NoTarget
     [] lv = "iface2x"                                  -> IF mk.iface = "I1" THEN ToOf(tg) ELSE To2Of(tg)
     [] lv = "iface2y"                                  -> IF mk.iface = "I1" THEN To2Of(tg) ELSE ToOf(tg)
+    \* the same source type mapped at two levels of ONE chain to different targets: the most specific level wins
+    [] lv = "over_pi"                                  -> IF mk.iface = "I1" THEN ToOf(tg) ELSE To2Of(tg)   \* package: To2, interface I1: To
+    [] lv = "over_re"                                  -> IF mk.iface = "I1" THEN ToOf(tg) ELSE To2Of(tg)   \* top level: To2, I1's configs entry: To
 Covered(mk, lv) == MockTo(mk, lv, "named") # NoTarget
 
 \* a choice fixes what the documentation leaves open: the constructor kinds through which the
@@ -153,25 +162,27 @@ Covered(mk, lv) == MockTo(mk, lv, "named") # NoTarget
 Choices == [desc : SUBSET NestKinds]
 
 RECURSIVE Sub(_, _, _, _)
-Sub(t, ch, key, to) ==
+MapsTo(maps, t) == (CHOOSE e \in maps : e[1] = <<t.p, t.n>>)[2]
+Mapped(maps, t) == t.k = "named" /\ \E e \in maps : e[1] = <<t.p, t.n>>
+Sub(t, ch, maps, to) ==
   IF t.k = "named"
-  THEN IF <<t.p, t.n>> = key THEN to ELSE t
+  THEN IF Mapped(maps, t) THEN MapsTo(maps, t) ELSE t
   ELSE IF t.k \in {"basic", "tparam"} THEN t          \* a type parameter is never the configured type
-  ELSE IF t.k \in ch.desc THEN [t EXCEPT !.a = [i \in DOMAIN t.a |-> Sub(t.a[i], ch, key, to)]]
+  ELSE IF t.k \in ch.desc THEN [t EXCEPT !.a = [i \in DOMAIN t.a |-> Sub(t.a[i], ch, maps, to)]]
   ELSE t
 
 \* a parameter / result at top level: exact match MUST be replaced, whatever the choice
-TopType(t, variadic, ch, key, to) ==
+TopType(t, variadic, ch, maps, to) ==
   IF variadic
-  THEN IF "variadic" \in ch.desc THEN Slice(Sub(t.a[1], ch, key, to)) ELSE t
-  ELSE IF t.k = "named" /\ <<t.p, t.n>> = key THEN to
-  ELSE Sub(t, ch, key, to)
+  THEN IF "variadic" \in ch.desc THEN Slice(Sub(t.a[1], ch, maps, to)) ELSE t
+  ELSE IF Mapped(maps, t) THEN MapsTo(maps, t)
+  ELSE Sub(t, ch, maps, to)
 
-RenderMethod(m, rep, ch, key, to) ==
+RenderMethod(m, rep, ch, maps, to) ==
   [name     |-> m.name,
    params   |-> [i \in DOMAIN m.params |->
-                   IF rep THEN TopType(m.params[i].t, m.params[i].variadic, ch, key, to) ELSE m.params[i].t],
-   results  |-> [i \in DOMAIN m.results |-> IF rep THEN TopType(m.results[i], FALSE, ch, key, to) ELSE m.results[i]],
+                   IF rep THEN TopType(m.params[i].t, m.params[i].variadic, ch, maps, to) ELSE m.params[i].t],
+   results  |-> [i \in DOMAIN m.results |-> IF rep THEN TopType(m.results[i], FALSE, ch, maps, to) ELSE m.results[i]],
    variadic |-> Len(m.params) > 0 /\ m.params[Len(m.params)].variadic]
 
 RECURSIVE Refs(_)
@@ -196,7 +207,8 @@ RenderAll(p, o, sk, tg, lv, ch, on) ==
   [i \in DOMAIN mks |->
      LET ms == MethodsOfIface(p, o, sk, mks[i].iface) IN
      [struct |-> mks[i].struct, iface |-> mks[i].iface,
-      methods |-> [j \in DOMAIN ms |-> RenderMethod(ms[j], on /\ Covered(mks[i], lv), ch, KeyFor(p, sk), MockTo(mks[i], lv, tg))]]]
+      methods |-> [j \in DOMAIN ms |-> RenderMethod(ms[j], on /\ Covered(mks[i], lv), ch,
+                                               {<<KeyFor(p, sk), MockTo(mks[i], lv, tg)>>} \cup TwinMaps(o, sk), MockTo(mks[i], lv, tg))]]]
 
 \* only the open points that occur in the case matter; restricting the choices keeps Accept small
 KindsIn(p) == CASE p = "variadic" -> {"variadic"}
